@@ -174,7 +174,18 @@ func runC07(_ *testing.T, c c07Case) kit.Outcome {
 		}
 		reached := start >= max
 		probed := false
-		for i := 0; i < limit && !reached; i++ {
+		// with probing enabled the healthy run goes on after the ceiling has been reached, through at least one probe (the
+		// estimate restarts from the allowance there, by design) and the recovery that follows: a state parked at the
+		// ceiling for a while and then probed is as reachable as any other, and must not be stuck either
+		extra := 0
+		if !noProbe && c.Cfg.ProbeInterval > 0 {
+			extra = 2*c.Cfg.ProbeInterval + 40
+			limit += extra
+		}
+		for i := 0; i < limit && (!reached || extra > 0); i++ {
+			if reached {
+				extra--
+			}
 			prev := b.Outer.EstimatedLimit()
 			rtt := runRTT()
 			b.Outer.OnSample(0, rtt, sat(prev), false)
@@ -194,7 +205,7 @@ func runC07(_ *testing.T, c c07Case) kit.Outcome {
 			if cur < want {
 				return kit.Viol("gradient:growth", "saturated drop-free sample at the baseline rtt=%d: estimate %d -> %d, expected at least min(max=%d, %d+allowance %d)", rtt, prev, cur, max, prev, q(prev))
 			}
-			reached = cur >= max
+			reached = reached || cur >= max
 		}
 		if bound >= 0 && !reached {
 			return kit.Viol("gradient:stuck", "probing disabled: after %d saturated healthy samples the estimate is %d (start %d, max %d)", bound, b.Outer.EstimatedLimit(), start, max)
